@@ -40,6 +40,7 @@ def build (b : String) (v : Str) : Option (Option NPath) :=
   | "baseVTableDir" => some (baseVTableDir D H v)
   | "suffixFile" => some (suffixFile D H v)
   | "tagsTreeFile" => some (tagsTreeFile D H v)
+  | "tagsTreeRead" => some (tagsTreeRead D H v)
   | "dashboardDetails" => some (dashboardDetails D H v)
   | "scrollResults" => some (scrollResults D H [] ['U'] v)
   | "sortIndexFile" => some (sortIndexFile D H "_auto.srt".toList v)
@@ -59,14 +60,28 @@ def cfKinds : List (String × Nat × Bool) := [
   ("delR", 1, false), ("delE", 1, false), ("delH", 1, false), ("delapiE", 1, false), ("srchidx", 1, false), ("sortcol", 2, false), ("evkey", 1, false), ("sortq", 1, false),
   ("aliasAdd", 2, false), ("aliasRm", 2, false), ("palE", 2, false), ("palH", 2, false), ("galE", 1, false), ("galH", 1, false),
   ("headE", 1, false), ("headH", 1, false),
-  ("upload", 1, false), ("uploadO", 1, false), ("lkgetR", 1, false), ("lkgetE", 1, false), ("lkgetH", 1, true),
+  ("upload", 1, false), ("uploadO", 1, false), ("uploadF", 1, false), ("lkgetR", 1, false), ("lkgetE", 1, false), ("lkgetH", 1, true),
   ("lkdelR", 1, false), ("lkdelE", 1, false), ("lkdelH", 1, true), ("ilookup", 1, false),
   ("dashNew", 1, false), ("dashUpd", 2, false), ("dashGetE", 1, false), ("dashGetH", 1, true), ("dashDelE", 1, false), ("dashDelH", 1, true),
   ("dashFavE", 1, false), ("foldNew", 2, false), ("foldGetE", 1, false), ("foldDelE", 1, false),
   ("usqSave", 1, false), ("usqGetE", 1, false), ("usqDelE", 1, false), ("usqGetH", 1, false),
   ("otsdbM", 1, false), ("otsdbK", 1, false), ("otsdbV", 1, false), ("promM", 1, false), ("promK", 1, false), ("promV", 1, false), ("promKH", 1, false),
   ("otlpM", 1, false), ("otlpK", 1, false), ("otlpV", 1, false),
-  ("scroll", 1, false), ("staticR", 1, false), ("staticE", 1, false), ("pqsE", 1, false)]
+  ("scroll", 1, false), ("staticR", 1, false), ("staticE", 1, false), ("pqsE", 1, false),
+  -- restart of the server (no client name)
+  ("restart", 0, false),
+  -- metrics queries: tag key / metric name / label name of a query
+  ("oqK", 1, false), ("oqM", 1, false), ("oxK", 1, false), ("oxKH", 1, false), ("pqK", 1, false), ("pqM", 1, false),
+  ("plvE", 1, false), ("plvH", 1, true), ("psK", 1, false), ("mxTags", 1, false), ("mxQ", 1, false),
+  -- index names: remaining bulk actions and routes
+  ("bulkCreate", 1, false), ("bulkUpdate", 1, false), ("bulkDelete", 1, false), ("bulkQ", 1, false),
+  ("docCreateE", 1, false), ("docUpdateE", 1, false), ("docPostE", 1, false), ("mapE", 1, false), ("mapH", 1, false),
+  ("headIE", 1, false), ("esSrchE", 1, false), ("esSrchH", 1, false), ("esDocGetE", 1, false),
+  ("listCols", 1, false), ("pqsAggs", 2, false), ("dbpanE", 1, false), ("jaegerE", 1, false), ("lokiL", 1, false), ("otlpTrace", 1, false),
+  -- dashboards / folders: remaining routes, ids inside bodies
+  ("foldUpdE", 2, false), ("foldCntE", 1, false), ("dashNewP", 1, false), ("dashMove", 1, false),
+  -- alerts, contacts, minion searches
+  ("alertGetE", 1, false), ("alertHistE", 1, false), ("minionGetE", 1, false), ("contactNew", 1, false)]
 
 /-- one step token `kind:hex[:hex]`: well-formed, and (router-gated handlers at level H) a value the router can deliver -/
 def cfStepOK (tok : String) : Bool :=
@@ -133,7 +148,7 @@ def handle (cmd : String) (args : List String) : Option String :=
   | "pjoin", [a, b] => some (match dec a, dec b with
       | some x, some y => enc (join x y)
       | _, _ => "bad-op")
-  | "pbuild", [b, a] => some (match dec a with
+  | "pbuild", [b, a] => some (if b = "tagsTreeRead" then "bad-op" else match dec a with
       | some v => (match build b v with
         | some r => answer false r
         | none => "bad-op")
